@@ -386,9 +386,13 @@ def oracle(p, r):
         lo_known = sum(1 for b in bounds if f in b[1])
         hi = sum(1 for b in bounds if f in b[2])
         c = got.get(f, 0)
-        # the property speaks of the set of files; multiplicities (an item listed twice) are left to the
-        # correspondence with the model
-        lo, lo_known, hi = min(lo, 1), min(lo_known, 1), (hi if hi == 0 else max(hi, c))
+        # the resolution is judged as a list: every item contributes each existing file at most once (so a file
+        # may appear as often as there are items accepting it, never more); a file that some item matches must
+        # appear (an implementation that lists it once for two identical items is not blamed)
+        lo, lo_known = min(lo, 1), min(lo_known, 1)
+        if hi and c > hi:
+            return ('Local.resolve_filenames:duplicate-within-item',
+                    f'{expr!r} resolved {f!r} {c} time(s) but only {hi} item(s) can yield it: listed more than once by one item')
         if c > hi:
             lit_marker = posixpath.basename(f) == '_SUCCESS' and any(b[3] for b in bounds)
             sig = 'Local.resolve_filenames:marker-resolved' if lit_marker else 'Local.resolve_filenames:extra-file'
@@ -402,6 +406,8 @@ def oracle(p, r):
         return ('textFile:raises:' + coll.name, f'textFile({expr!r}).collect() raised {coll.name}')
     text_of = dict(zip(files, contents))
     want = [ln for n in sorted(names) for ln in lines_of(text_of[to_rel(n)])]
+    if len(coll) != len(want):
+        return ('textFile:record-count', f'textFile({expr!r}) returned {len(coll)} records; the resolved files hold {len(want)}')
     if sorted(coll) != sorted(want):
         return ('textFile:files-differ', f'textFile({expr!r}) read {coll!r}, resolved {want!r}')
     if coll != want:
@@ -488,8 +494,10 @@ def gen_dir(rng, depth):
         elems = [f'e{i}' for i in range(k)]
         out += [(fn, text, SAVED) for fn, text in saved_dataset(elems, n)]
         if rng.random() < 0.25:
-            f = rng.choice(['partial.txt', 'other.txt', '.part-00000.crc', 'apart', 'sub/part-00000', 'part-x/y'])
+            f = rng.choice(['partial.txt', 'other.txt', '.part-00000.crc', 'apart', 'sub/part-00000', 'part-x/y', 'sub/notes.txt', 'key=1/part-00000'])
             out.append((f, gen_content(rng, f), gen_attr(rng)))
+            if f.startswith('sub/') and rng.random() < 0.5:
+                out.append(('sub/_SUCCESS', '', PLAIN))
     elif style < 0.45:
         # laid out like a dataset directory, arbitrary sizes
         n = rng.randint(1, 3)
@@ -643,6 +651,11 @@ SIB_PATTERNS = ['o??', '*t', 'o*t', '?u?', 'o?', 'ou*', 'o*', '???', 'D/o??', 'D
                 'log.txt,o??', 'o??,nonexistent', ' o?? , D/*t', 'oak,ou?', 'o??,o??', 'file://o??,D/o??', 'o?t', 'oa?', 'D/ou?', 'D/oak']
 
 
+NEST_FILES = ['out/_SUCCESS', 'out/key=1/part-00000', 'out/part-00000', 'out/part-00001', 'out/sub/_SUCCESS', 'out/sub/notes.txt',
+              'out/sub/part-00000', 'out/sub/part-00001', 'top.txt']
+NEST_TREE = (NEST_FILES, ['', 'k1\n', 'r0\n', '', '', 'note\n', '', 's1\n', 'top\n'], [0] * 9)
+
+
 def styled(rng, pat, style=None):
     """relative / ./-relative / absolute, with or without file://"""
     style = rng.randrange(6) if style is None else style
@@ -732,6 +745,15 @@ def generate(rng, tier):
             cases.append((RES, ROOT_SYM) + SIB_TREE + (styled(rng, q, st) if st else q,))
     for q in sibling_cover_patterns(SIB_FILES):
         cases.append((RES, ROOT_SYM) + SIB_TREE + (styled(rng, q),))
+    # a '*' that runs across the separator reaches a part file directly AND through item + '/part*' (each file
+    # once per item all the same); directories nested inside a dataset directory
+    for q in ['o*', 'ou*', 'o*t*', 'D/o*', 'D/ou*', 'D/o*t*', 'log.txt,D/out*', 'o*,o*', 'ou*,D/o*', '*', 'D/*', '*t*']:
+        for st in (0, 1, 2, 3, 4) if ',' not in q else (0,):
+            cases.append((RES, ROOT_SYM) + SIB_TREE + (styled(rng, q, st) if st else q,))
+    for q in ['out', 'out/sub', 'out/su?', '*/sub', 'ou?/sub/part-0000?', '*.txt', 'out,out/sub', 'out/key=1', 'out/key=?', 'out/*',
+              'o*', 'out/s*', 'ou?', 'out/sub/*', '*/*/part*', 'out/sub,out/key=1', 'o*/sub', 'out*', 'out/sub/notes.txt', 'ou?/su?']:
+        for st in (0, 2, 3, 4) if ',' not in q else (0,):
+            cases.append((RES, ROOT_SYM) + NEST_TREE + (styled(rng, q, st) if st else q,))
     # documentation-style tree: every single substitution on every name, all styles for the literals
     for q in names_of(DOC_FILES) + ['out/', 'out/sub', 'foo://x', 'a.txt,a.txt', ' a.txt , out ', 'out//part*', 'out/./part*',
                                   'a.txt/x*', 'a.txt/', './a.txt', '.', './', 'd*/x.txt', 'da?a/x.txt', '*/x.txt', '?/x.txt',
